@@ -35,7 +35,7 @@ def decide(term, g, a, p, reg, asm, res, tol=TOL, timeout_ms=10000):
                 box = c02.series_box(num, den, g, reg, L)
                 if box is None:
                     return solver.Verdict("undecided", "series path with an atom that cannot be enclosed")
-                v = solver.check_bound(num, box, Fraction(tol) * L, den_poly=None if T.p_is_const(den) else den, max_split=12)
+                v = solver.check_bound(num, box, Fraction(tol), den_poly=None if T.p_is_const(den) else den, max_split=12)
                 if v.status != "holds":
                     v.status = "undecided" if v.status == "undecided" else v.status
                     return v
@@ -245,8 +245,12 @@ def main(tier):
     groups = [B["SO2"], B["SO3"], B["SE2"], B["C1"], B["SE3"]]
     if tier == "thorough":
         groups += [B["Galilei"], B["SE_1_3"], B["SE_2_3"]] + grouptu.bundle_shapes("quick")
-    check.run_jobs([(_compile, (g,)) for g in groups])
+    check.run_jobs([(_compile, (g,)) for g in groups + ([B['Galilei'], B['SE_2_3']] if tier == 'quick' else [])])
     jobs = []
+    if tier == "quick":
+        # the less-used semidirect groups: direct Jacobians row by row (their inverses are thorough-only)
+        for g in (B["Galilei"], B["SE_2_3"]):
+            jobs += [(job, (g, fn, tier, [i])) for fn in ("dr_exp", "dl_exp") for i in range(g.dof)]
     for g in groups:
         for fn in ["dr_exp", "dr_expinv", "dl_exp", "dl_expinv"]:
             if g.dof <= 3:
@@ -255,6 +259,6 @@ def main(tier):
                 jobs += [(job, (g, fn, tier, [i])) for i in range(g.dof)]
     jobs += [(job_action, (g, tier)) for g in groups if g.act and g.name != "C1"]
     run.extend(check.run_jobs(jobs, timeout=900 if tier == "quick" else 3600))
-    run.bounds += ["groups: " + ", ".join(g.name for g in groups)]
+    run.bounds += ["groups: " + ", ".join(g.name for g in groups) + ("; Galilei and SE_K_3<2>: dr_exp, dl_exp only" if tier == "quick" else "")]
     run.assumptions += ["layer R; rounding next to the series switch is not modelled", "exp oracle as decided in C02"]
     return run.finish()
